@@ -163,7 +163,7 @@ package transport
 // registered under exactly that id; a frame nobody waits for is released; the hand-off does not
 // block, and the channel it uses has room for one reply, so it can only fail when a reply for the
 // same waiter is already queued.
-//@ func (dc *TraditionalDnsConn) readLoop [C01, C02]
+//@ func (dc *TraditionalDnsConn) readLoop [C01, C02, C07]
 //@   requires dc != nil
 //@   modifies *
 //@   loop 0:
